@@ -22,4 +22,5 @@ class Check(PropertyCheck):
                 ("world.extreme", fam_world.extreme_histories(rng.sub("extreme_histories"), tier)),
                 ("world.first_provision", fam_world.first_provision_matrix(rng.sub("first_provision_matrix"), tier)),
                 ("world.lookalike", fam_world.lookalike_histories(rng.sub("lookalike_histories"), tier)),
-                ("world.reseed", fam_world.reseed_histories(rng.sub("reseed_histories"), tier))]
+                ("world.reseed", fam_world.reseed_histories(rng.sub("reseed_histories"), tier)),
+                ("world.dust_withdrawal", fam_world.dust_withdrawal_histories(rng.sub("dust_withdrawal"), tier))]
